@@ -1,10 +1,10 @@
-SPECIFICATION Spec
+SPECIFICATION SpecRun
 CONSTANTS
   Alphabet <- TimeAlphabet
   MaxSteps = 5
   AutoStart = FALSE
   Deviation = "none"
 VIEW View
-INVARIANTS TypeOK Sane AvgDef Baseline StartedGuard
-PROPERTIES RateDef BackwardsZero WindowRule FirstObservation ReadIsPure
+INVARIANTS TypeOK Sane AvgDef Baseline StartedGuard ReadsRefusedUnlessStarted ReadsAnsweredWhileRunning
+PROPERTIES RateDef BackwardsZero WindowRule FirstObservation ReadIsPure ClosedIsFinal CloseIdempotent
 CHECK_DEADLOCK FALSE
